@@ -22,6 +22,8 @@ func c19Patterns(thorough bool) []c19Pat {
 		{`"a"`, func() Expr { return S("a") }},
 		{"null", func() Expr { return &NullLit{} }},
 		{"true", func() Expr { return &BoolLit{B: true} }},
+		{`"1"`, func() Expr { return S("1") }}, // the same text as the number 1, another kind
+		{`'2'`, func() Expr { return &StrLit{S: "2", Quote: '\''} }},
 	}
 	ids := []c19Pat{
 		{"x", func() Expr { return V("x") }},
@@ -81,6 +83,9 @@ var c19Subjects = []c19Subj{
 	{"{a:1}", func() Expr { return &ObjLit{Keys: []string{"a"}, Vals: []Expr{N("1")}} }},
 	{"unset", func() Expr { return V("u") }},
 	{"[[1],7]", func() Expr { return Arr_(Arr_(N("1")), N("7")) }},
+	{`"1"`, func() Expr { return S("1") }},
+	{`"1.0"`, func() Expr { return S("1.0") }},
+	{`[1,2,3]`, func() Expr { return Arr_(N("1"), N("2"), N("3")) }},
 }
 
 type c19Spec struct {
@@ -176,7 +181,7 @@ func init() {
 			// thorough tier: the large pattern alphabet is only combined pairwise
 			wide := np
 			if c.Thorough() {
-				wide = 14
+				wide = 16
 			}
 			// first case: {first} or {first, b}
 			firsts := [][]int{{first}}
@@ -187,8 +192,8 @@ func init() {
 				do([][]int{fc})
 				for a := 0; a < wide; a++ {
 					do([][]int{fc, {a}})
-					if len(fc) == 1 || a < 14 {
-						for b := 0; b < wide && b < 14; b++ {
+					if len(fc) == 1 || a < 16 {
+						for b := 0; b < wide && b < 16; b++ {
 							do([][]int{fc, {a, b}})
 						}
 					}
@@ -196,14 +201,14 @@ func init() {
 			}
 			if c.Thorough() {
 				// every pattern of the large alphabet as second alternative and as second case
-				for b := 14; b < np; b++ {
+				for b := 16; b < np; b++ {
 					do([][]int{{first, b}})
 					do([][]int{{first}, {b}})
 					do([][]int{{b}, {first}})
 				}
 			}
-			for a := 0; a < wide && a < 14; a++ {
-				for b := 0; b < wide && b < 14; b++ {
+			for a := 0; a < wide && a < 16; a++ {
+				for b := 0; b < wide && b < 16; b++ {
 					do([][]int{{first}, {a}, {b}})
 				}
 			}
@@ -218,10 +223,10 @@ func init() {
 					}
 				}
 				stream([][]int{{first}})
-				for a := 0; a < 14; a++ {
+				for a := 0; a < 16; a++ {
 					stream([][]int{{first, a}})
 					stream([][]int{{first}, {a}})
-					for b := 0; b < 14; b++ {
+					for b := 0; b < 16; b++ {
 						stream([][]int{{first}, {a}, {b}})
 					}
 				}
